@@ -419,6 +419,40 @@ int32 matrixSslDecode(ssl_t *ssl,
 }
 
 # ifndef USE_TLS_1_3_ONLY
+#if defined(USE_STATELESS_SESSION_TICKETS) && defined(USE_CLIENT_SIDE_SSL)
+/*
+    A ChangeCipherSpec is the first sign that the server accepted the session
+    ticket we offered (RFC 5077 3.4 lets it stay silent in ServerHello). The
+    session being resumed is the one the ticket belongs to: its master secret
+    and its cipher suite, as stored with the ticket - never whatever the
+    ServerHello parse left in the ssl_t (it wipes ssl->sec.masterSecret when
+    a session id we also offered was declined, and a ticket may be offered
+    without any stored secret at all).
+ */
+static int32 resumeTicketInLimbo(ssl_t *ssl)
+{
+    sslSessionId_t *sid = ssl->sid;
+    unsigned char acc = 0;
+    int32 i;
+
+    if (sid == NULL || sid->sessionTicket == NULL || sid->sessionTicketLen == 0)
+    {
+        return PS_FAILURE;
+    }
+    for (i = 0; i < SSL_HS_MASTER_SIZE; i++)
+    {
+        acc |= sid->masterSecret[i];
+    }
+    if (acc == 0 || ssl->cipher == NULL || ssl->cipher->ident != sid->cipherId)
+    {
+        /* No secret stored with the ticket, or not the ticket's suite */
+        return PS_FAILURE;
+    }
+    Memcpy(ssl->sec.masterSecret, sid->masterSecret, SSL_HS_MASTER_SIZE);
+    return PS_SUCCESS;
+}
+#endif
+
 static
 int32_t matrixSslDecodeTls12AndBelow(ssl_t *ssl,
         unsigned char **buf, uint32 *len,
@@ -1391,6 +1425,12 @@ ADVANCE_TO_APP_DATA:
                 ssl->sid->sessionTicketState == SESS_TICKET_STATE_IN_LIMBO)
             {
                 /* Do all the things that should have been done earlier */
+                if (resumeTicketInLimbo(ssl) < 0)
+                {
+                    ssl->err = SSL_ALERT_UNEXPECTED_MESSAGE;
+                    psTraceErrr("CCS without a ticket session to resume\n");
+                    goto encodeResponse;
+                }
                 ssl->flags |= SSL_FLAGS_RESUMED;
 # ifdef USE_MATRIXSSL_STATS
                 matrixsslUpdateStat(ssl, RESUMPTIONS_STAT, 1);
@@ -1415,6 +1455,12 @@ ADVANCE_TO_APP_DATA:
                      ssl->sid->sessionTicketState == SESS_TICKET_STATE_IN_LIMBO)
             {
                 /* Do all the things that should have been done earlier */
+                if (resumeTicketInLimbo(ssl) < 0)
+                {
+                    ssl->err = SSL_ALERT_UNEXPECTED_MESSAGE;
+                    psTraceErrr("CCS without a ticket session to resume\n");
+                    goto encodeResponse;
+                }
                 ssl->flags |= SSL_FLAGS_RESUMED;
 #  ifdef USE_MATRIXSSL_STATS
                 matrixsslUpdateStat(ssl, RESUMPTIONS_STAT, 1);
@@ -1440,6 +1486,12 @@ ADVANCE_TO_APP_DATA:
                      ssl->sid->sessionTicketState == SESS_TICKET_STATE_IN_LIMBO)
             {
                 /* Do all the things that should have been done earlier */
+                if (resumeTicketInLimbo(ssl) < 0)
+                {
+                    ssl->err = SSL_ALERT_UNEXPECTED_MESSAGE;
+                    psTraceErrr("CCS without a ticket session to resume\n");
+                    goto encodeResponse;
+                }
                 ssl->flags |= SSL_FLAGS_RESUMED;
 #  ifdef USE_MATRIXSSL_STATS
                 matrixsslUpdateStat(ssl, RESUMPTIONS_STAT, 1);
